@@ -266,6 +266,14 @@ Theorem C01_config_oracle : forall drift ref peer cutoff timeout interval,
 Proof. exact config_oracle. Qed.
 Print Assumptions C01_config_oracle.
 
+(* the settings are in seconds, the service works in nanoseconds: timemath.Duration(x) is within 1 ns + 2^-52 (relative)
+   of x * 10^9 for every float64 x with |x * 10^9| < 2^62, and it is 0 only for |x * 10^9| < 1 (nanos_close and sub_ns
+   state this in integers on the exact value m * 2^e of x) *)
+Theorem C01_config_seconds_to_ns : forall x,
+  nanos_close x (dur_of_seconds x) = true /\ (dur_of_seconds x = 0 -> is_finite x = true -> sub_ns x = true).
+Proof. exact dur_of_seconds_spec. Qed.
+Print Assumptions C01_config_seconds_to_ns.
+
 (* nothing configured: the defaults 1.25 / 2.5 / 50 us / 500 ms / 1 s, accepted by Run; the drift is UnknownDrift *)
 Theorem C01_config_defaults_admissible :
   sync_config None None None None None = mkcfg default_ref default_peer 50000 500000000 1000000000 /\ inadmissible (sync_config None None None None None) = false /\ clock_drift None = Some 0.
